@@ -113,6 +113,26 @@ pub fn reload_scenario(per_pool: bool, kind: &str) -> Scenario {
     sc
 }
 
+/// The queued scenario with a RELOAD that rebuilds the pool (its idle_timeout changes) *before* the PAUSE: the
+/// queued client still waits on the old pool object when the pause arrives, and must be held like everybody else.
+pub fn reload_then_pause_queued_scenario(per_pool: bool) -> Scenario {
+    let mut sc = queued_scenario(per_pool);
+    sc.alt_tomls = vec![sc.toml.replacen("[pools.db]\n", "[pools.db]\nidle_timeout = 40000\n", 1)];
+    assert!(sc.alt_tomls[0].contains("idle_timeout = 40000"));
+    let admin = sc.actors.len() - 1;
+    // steps: [wait for c1 to be queued, PAUSE, wait for c0, RESUME] -> insert the reload before the PAUSE
+    sc.actors[admin].steps.insert(1, Step::WriteConfig(0));
+    sc.actors[admin].steps.insert(2, Step::Admin("RELOAD".into()));
+    // c0 waited for the admin to be past its PAUSE: two more steps now
+    for st in sc.actors[0].steps.iter_mut() {
+        if let Step::Wait(crate::world::Cond::ActorAt(3, n)) = st {
+            *n += 2;
+        }
+    }
+    sc.name = sc.name.replace("admin=PAUSE;RESUME", "admin=RELOAD(changed);PAUSE;RESUME");
+    sc
+}
+
 /// pool_size 1: c0 holds the only server inside a transaction, c1's first statement is already waiting
 /// for a server when PAUSE arrives, then c0 commits: c1 must not start before RESUME. (Found by the
 /// thorough tier at three deviations; scripted here so that the quick tier reaches it at none.)
@@ -374,6 +394,8 @@ pub fn build(tier: &str) -> SimCheck {
             scenarios.push(reload_scenario(per_pool, kind));
         }
     }
+    scenarios.push(reload_then_pause_queued_scenario(false));
+    scenarios.push(reload_then_pause_queued_scenario(true));
     scenarios.push(queued_scenario(false));
     scenarios.push(queued_scenario(true));
     scenarios.push(queued_twice_scenario(false));
@@ -383,7 +405,7 @@ pub fn build(tier: &str) -> SimCheck {
         oracle: Box::new(oracle),
         bound: if thorough { 3 } else { 2 },
         limits: Limits { max_wall_s: if thorough { 7200.0 } else { 55.0 }, ..Default::default() },
-        rule: "scenario = pool_size {1,2} x global / per-pool PAUSE x client programs (2-3 clients of the paused pool with multi-statement and autocommit transactions, extended-protocol transactions, lone Sync batches (answered by the pooler itself) between transactions, a transaction that fails and is rolled back, one client of another pool) x admin sequence (P;R / P;R;P;R / R;P;R / P;P;R; also P;RELOAD;R where the reload replaces or removes the paused pool), plus the scripted 'statement already queued for the only server when PAUSE arrives' scenario; all schedules with <= bound deviations: PAUSE and RESUME land while clients are idle, arriving, mid-transaction, between transactions or queued for a connection".into(),
+        rule: "scenario = pool_size {1,2} x global / per-pool PAUSE x client programs (2-3 clients of the paused pool with multi-statement and autocommit transactions, extended-protocol transactions, lone Sync batches (answered by the pooler itself) between transactions, a transaction that fails and is rolled back, one client of another pool) x admin sequence (P;R / P;R;P;R / R;P;R / P;P;R; also P;RELOAD;R where the reload replaces or removes the paused pool, and RELOAD;P;R with a client queued on the replaced pool), plus the scripted 'statement already queued for the only server when PAUSE arrives' scenario; all schedules with <= bound deviations: PAUSE and RESUME land while clients are idle, arriving, mid-transaction, between transactions or queued for a connection".into(),
         assumptions: vec!["paused interval = from the PAUSE reply being read by the admin client to the RESUME being sent".into(), "interleavings below await-point granularity are decided by the loom part".into()],
     }
 }
